@@ -421,10 +421,12 @@ def main(check_cls, argv=None):
 
     # 4. verdict ------------------------------------------------------------------------------------
     reg = kfmod.Registry(check.pid)
-    for kid, n in sorted(merged["kf_hits"].items()):
-        e = reg.entry(kid)
-        if e:
-            print("KNOWN-FINDING: property=%s %s [%s, %d hits]" % (check.pid, e["what"], kid, n))
+    # one line per LISTED open finding of this property (met in this run or not: the list is the committed file, never written here)
+    for e in reg.entries:
+        if not e.get("status", "open").startswith("open"):
+            continue
+        n = merged["kf_hits"].get(e["id"], 0)
+        print("KNOWN-FINDING: property=%s %s [%s, %s]" % (check.pid, e["what"], e["id"], ("%d hits" % n) if n else "not met in this run"))
     if merged["worker_deaths"]:
         print("NOTE: the library process died or timed out in %d case(s) (samples: worker_death_samples in the evidence); a death is reported as a "
               "violation of this check, a time-out (%d) is inconclusive and only counted" % (merged["worker_deaths"], merged["extra"].get("inconclusive_hangs", 0)))
